@@ -38,3 +38,8 @@ check("C13", "exploration",
       "runtime monitor: independent keep/remove/don't-care classification of every file from the recorded store/lookup history, evaluated after each real Trim call (virtual clock via the verif hook VerifSetNow; second workload on the real clock with mtime-simulated ages)",
       "Histories with boundary-heavy time steps (1 ns around 1 h, 5 d and 5 d + 1 h), 19 trim.txt variants and 400-day-old non-entry files; after each Trim every file is classified from its last store/lookup and compared with what is on disk; whether the trim ran is decided from trim.txt.",
       "Trusted: the classification in checks/c13; the hook only replaces the cache's clock (the package's own tests do the same). The zero-length output is created with the OS clock and is therefore exercised only in the real-clock workload.")
+
+check("C12", "fault_enumeration",
+      "runtime fault injection with strace on the unmodified binary (SIGKILL at the entry of, or an errno from, every file syscall of Put, enumerated by a dry run and confirmed from each injected run's trace), RLIMIT_FSIZE short writes, hostile ReadSeekers, random SIGKILLs; a fresh-open verifier evaluates the statement's gates after every fault",
+      "Exhaustive at syscall granularity for the listed scenarios (new / overwrite / re-store with sharing entry / stale index entry / three pre-damaged outputs) and sizes: every boundary between two file operations of Put is a crash point, every operation is made to fail with the errnos that apply to it. The evidence carries the landing table (scenario x syscall x kind).",
+      "Trusted: strace 6.1 injection semantics (signal delivered at syscall entry aborts the syscall; confirmed by the partial files observed); the child locks the main thread so that counts are deterministic. Process stops only: no page-cache loss. Pre-damaged scenarios assert only the checksum-verified lookups, as the statement says.")
